@@ -22,6 +22,7 @@ import subprocess
 import tempfile
 import time
 from . import common as C
+from .c18_cluster import bound_check
 
 OCAML = ["c18fsm"]
 GO = ["c18fsm"]
@@ -134,9 +135,16 @@ def one_leg(run, args, stats, samples, timeout=1500, pre=None):
     if not ok:
         report(run, stats, "fsm:harness-failed", {"args": args}, "C18 finitestate census driver failed to run", True)
         return
+    # (audit2 M6) A rejected trace is a real execution the model cannot produce, whatever a re-run does: it is
+    # dropped only if the model accepts the RECORDED trace when replayed offline, alone with the large fuel; the
+    # two re-runs of the scenario only tell the reader how reproducible it is.
     rejected = [n for n, (v, _) in verdict.items() if v in ("REJECT", "BADTRACE") and n not in propfail]
-    confirmed = {}
+    confirmed, offline_ok = {}, set()
     for n in rejected[:12]:
+        v1, _, _, _, ok1 = model_once({n: traces[n]}, 150000, 1)
+        if ok1 and v1.get(n, ("", ""))[0] == "ACCEPT":
+            offline_ok.add(n)
+            continue
         again = 0
         for _ in range(2):
             with tempfile.NamedTemporaryFile("w", suffix=".txt", delete=False) as f:
@@ -182,12 +190,19 @@ def one_leg(run, args, stats, samples, timeout=1500, pre=None):
             report(run, stats, "fsm:theorem-instance:" + modelprop[name][0], dict(payload, theorem="C18_fsm_okb"),
                    "an accepted quiescent model state contradicts the proved C18_fsm_okb (extraction / driver fault)", True)
         elif v in ("REJECT", "BADTRACE", "MISSING"):
-            if confirmed.get(name, 2) >= 1:
-                report(run, stats, "fsm:corr:" + h8(sc),
-                       dict(payload, theorem="correspondence B (FsmGo census acceptor)", reruns_rejected=confirmed.get(name)),
-                       "finitestate produced a trace / goroutine census the model cannot produce (%s)" % info, True)
+            if name in offline_ok:
+                stats["rejects_accepted_offline"] = stats.get("rejects_accepted_offline", 0) + 1
             else:
-                stats["flaky_rejects"] = stats.get("flaky_rejects", 0) + 1
+                rep = confirmed.get(name)
+                if rep == 0:
+                    stats["rejects_not_reproduced"] = stats.get("rejects_not_reproduced", 0) + 1
+                report(run, stats, "fsm:corr:" + h8(sc),
+                       dict(payload, theorem="correspondence B (FsmGo census acceptor)",
+                            reproduced="%s/2" % ("?" if rep is None else rep)),
+                       "finitestate produced a trace / goroutine census the model cannot produce (%s); re-running the "
+                       "scenario alone reproduced it %s of 2 times" % (info, "?" if rep is None else rep), True)
+        elif v == "INCONCLUSIVE":
+            stats["inconclusive_unexplained"] = stats.get("inconclusive_unexplained", 0) + 1
         if len(samples) < 3 and v == "ACCEPT":
             samples.append({"script": sc, "trace": " ".join(toks)[:1500]})
 
@@ -280,6 +295,10 @@ def leg(run):
     distinct = len(stats.pop("distinct", set()))
     if stats.get("reported"):
         cov["violations_by_shape"] = stats["reported"]
+    # inconclusive traces WITH a predicate failure are violations already (a leaking tree blows the state sets up)
+    cov["bounds"] = bound_check(run, "fsm:", "C18 finitestate leg", sum(n for _, n, _ in plan),
+                                stats.get("accepted", 0) + stats.get("rejected", 0), 0,
+                                stats.get("inconclusive_unexplained", 0))
     cov.update({
         "scenarios": stats.get("scenarios", 0),
         "distinct_traces": distinct,
@@ -291,7 +310,8 @@ def leg(run):
         "op_distribution": stats.get("op_distribution", {}),
         "inconclusive": stats.get("inconclusive", 0),
         "acceptor_second_pass": stats.get("second_pass", 0),
-        "flaky_rejects": stats.get("flaky_rejects", 0),
+        "rejects_not_reproduced_but_reported": stats.get("rejects_not_reproduced", 0),
+        "rejects_accepted_offline": stats.get("rejects_accepted_offline", 0),
         "soak": stats.get("soak", {}),
         "families": {f: n for f, n, _ in plan},
         "samples": samples,
